@@ -99,8 +99,8 @@ PROPS = {
         technique="Lean 4 proof (frame property of the shape walk, injectivity of rendered keys, flag transparency by induction on leaf types) + differential run on generated tree pairs",
     ),
     "C17": dict(
-        text="Kernel-checked theorems: the model's verdict AND bindings of one array check are the same for any two objects that answer the type test, .dtype and .shape alike (a tracer and the concrete array it stands for), in every context and mode; lifted to the typechecker's whole pass over the annotated values of a call (the walk C02 proves to be satisfiability), hence to replacing every payload as tracing does; and the tie to the source: the uses of the checked object on the check path, re-extracted on every run, are reads of `shape` and `dtype` and hand-offs to isinstance / hasattr / the two helpers only - no comparison, truth test, indexing or iteration (decide). On the real code: functions generated as in C02 over jax.Array (some parameters PyTrees of arrays) called eagerly with zeros / random / NaN values and under jit, eval_shape, vmap (random in_axes incl. None, batch axis at a random position; eager counterpart = per-example shapes), grad, value_and_grad and the compositions jit(jit), jit(vmap), vmap(jit), eval_shape(vmap), vmap(vmap), jit(grad): raise / no-raise must equal the eager call (and the model), no Concretization / TracerBoolConversion error may occur; a spy array records every attribute and special method touched.",
-        note="Partial: that JAX tracers report the shape / dtype of the values they stand for, that vmap strips the mapped axis, and that reading them does not concretise is JAX behaviour - validated on every generated function, not proved. Payload independence is proved for array annotations and sequences of them; for PyTree parameters it is evaluated on the implementation only.",
+        text="Kernel-checked theorems: the model's verdict AND bindings of one array check are the same for any two objects that answer the type test, .dtype and .shape alike (a tracer and the concrete array it stands for), in every context and mode; lifted to the typechecker's whole pass over the annotated values of a call (the walk C02 proves to be satisfiability), hence to replacing every payload as tracing does; and, by a relational induction over values and leaf types, to EVERY annotation in scope - tuples, unions, PyTree[...] with structure names and '?' axes - and to the parameter pass of a call with such annotations: values that are the same tree with arrays of the same class, dtype and shape at the same places get the same verdict and leave the same state; and the tie to the source: the uses of the checked object on the check path, re-extracted on every run, are reads of `shape` and `dtype` and hand-offs to isinstance / hasattr / the two helpers only - no comparison, truth test, indexing or iteration (decide). On the real code: functions generated as in C02 over jax.Array (some parameters PyTrees of arrays) called eagerly with zeros / random / NaN values and under jit, eval_shape, vmap (random in_axes incl. None, batch axis at a random position; eager counterpart = per-example shapes), grad, value_and_grad and the compositions jit(jit), jit(vmap), vmap(jit), eval_shape(vmap), vmap(vmap), jit(grad): raise / no-raise must equal the eager call (and the model), no Concretization / TracerBoolConversion error may occur; a spy array records every attribute and special method touched.",
+        note="Partial: that JAX tracers report the shape / dtype of the values they stand for, that vmap strips the mapped axis, and that reading them does not concretise is JAX behaviour - validated on every generated function, not proved.",
         technique="Lean 4 proof (the check is a function of type test, dtype and shape; extracted attribute-use facts) + eager-vs-transformed differential run under jit / vmap / grad / eval_shape",
     ),
     "C18": dict(
